@@ -35,7 +35,7 @@ PROBES = ["fault_free_runs", "files_structurally_compared", "adjusted_rules_mask
           "fault:eacces-in", "fault:eio-in", "fault:eio-close-out", "dir_invocation", "file_invocation", "cwd_is_tree", "bystanders_checked",
           "feat:opaque-atrules", "feat:odd-strings", "feat:vendor-hacks", "feat:star-hack", "feat:crlf", "feat:bom", "feat:cdo-cdc",
           "feat:non-ascii", "feat:nesting", "feat:vars", "feat:unicode-seps", "feat:dup-root", "feat:nested-root", "feat:dup-selectors", "feat:comment-in-value", "feat:stale-charset", "feat:css-nesting", "feat:own-colour-elsewhere", "noarg_invocation", "glue_comment_needed", "report_written", "stale_output_overwritten",
-          "cm_named_stylesheet_as_file_argument", "cm_named_stylesheet_as_bystander", "symlinked_stylesheet_input", "real_interpreter_non_utf8_locale_runs"]
+          "cm_named_stylesheet_as_file_argument", "cm_named_stylesheet_as_bystander", "symlinked_stylesheet_input", "real_interpreter_non_utf8_locale_runs", "tmpdir_on_other_filesystem_runs"]
 
 C09_FEATURES = gen.ALL_FEATURES
 _NAMES = ("a.css", "b.css", "main.css", "thème.css", "my style.css", "reset.min.css")
@@ -57,8 +57,9 @@ def generate(rseed, tier, idx):
     fr = stream(rseed, "faults")
     o = stream(rseed, "order")
     settings = _settings(g)
-    env = {"cwd": e.choice(("cwd", "cwd", "tree", "tree/sub")), "tty": e.random() < 0.3, "argform": e.choice(("abs", "abs", "rel", "noarg"))}
-    feats_pool = [f for f in C09_FEATURES if g.random() < (0.2 if f == "star-hack" else 0.7)]
+    env = {"cwd": e.choice(("cwd", "cwd", "tree", "tree/sub", "work [v2]", "a b/c", "\u00fcn\u00ef")), "tty": e.random() < 0.3, "argform": e.choice(("abs", "abs", "rel", "noarg")),
+           "tmp_other_fs": e.random() < 0.12}
+    feats_pool = [f for f in C09_FEATURES if f != "many-rules" and g.random() < (0.2 if f == "star-hack" else 0.7)]
     nfiles = g.choice((1, 1, 2, 2, 3, 4))
     tree = {}
     for k in range(nfiles):
@@ -137,7 +138,7 @@ def generate(rseed, tier, idx):
             p = "tree/" + fr.choice(inputs)
             plans.append({"kind": kind, "faults": [{"path": p, "mode": "r", "n": 1, "what": "eacces" if kind == "eacces-in" else "eio"}]})
     real = None
-    if idx % 10 == 6 and all(ord(ch) < 128 for rel in tree for ch in rel):
+    if idx % 10 == 6 and all(ord(ch) < 128 for rel in list(tree) + [env["cwd"]] for ch in rel):
         real = "C"  # executed by a real interpreter under a non-UTF-8 locale (file names are ASCII; contents need not be)
     return {"prop": ID, "tree": tree, "outside": outside, "env": env, "settings": settings, "inv": inv, "pre_report": pre_report, "real": real,
             "order_key": o.randrange(1 << 30), "plans": plans, "crash_frac": [fr.random() for _ in range(3)], "enumerate_crashes": True}
@@ -178,8 +179,25 @@ def _invoke(root, trace, faults=(), crash_io=None):
     target = "tree" if inv["target"] in (".", "") else "tree/" + inv["target"]
     if trace.get("real") and not faults and crash_io is None:
         return cli_run.cli_exec_real(root, target, trace["settings"], cwd_rel=env["cwd"], argform=env["argform"], locale_mode=trace["real"])
-    return base.in_fork(cli_run.cli_exec, root, target, trace["settings"], cwd_rel=env["cwd"], order_key=trace.get("order_key"),
-                        faults=list(faults), crash_io=crash_io, tty=env["tty"], argform=env["argform"], timeout=240)
+    tmpd = None
+    if env.get("tmp_other_fs"):
+        cand = os.path.join("/tmp" if root.startswith("/dev/shm") else "/dev/shm", "cmverif-tmp-%d-%s" % (os.getpid(), os.path.basename(root)))
+        try:
+            os.makedirs(cand, exist_ok=True)
+            if os.stat(cand).st_dev != os.stat(root).st_dev:
+                tmpd = cand
+        except OSError:
+            tmpd = None
+    try:
+        res = base.in_fork(cli_run.cli_exec, root, target, trace["settings"], cwd_rel=env["cwd"], order_key=trace.get("order_key"),
+                           faults=list(faults), crash_io=crash_io, tty=env["tty"], argform=env["argform"], tmpdir_abs=tmpd, timeout=240)
+        if tmpd:
+            left = sorted(os.listdir(tmpd))
+            res["tmp_left"] = left
+        return res
+    finally:
+        if tmpd:
+            base.rm_tree(tmpd)
 
 
 def _effects(trace, before, after, res, allowed, V, phase):
@@ -278,6 +296,10 @@ def execute(trace):
         bump("bystanders_checked", len([k for k in before if k not in allowed["out"] and k not in allowed["inputs"]]))
         if res["exit"] != 0:
             V("cli-raised", "free", exit=res["exit"], exc=res.get("exc"))
+        if env.get("tmp_other_fs"):
+            bump("tmpdir_on_other_filesystem_runs")
+            if res.get("tmp_left"):
+                V("unexpected-path", "free", path="<TMPDIR>/" + res["tmp_left"][0], note="left behind in the temp directory")
         _effects(trace, before, after, res, allowed, V, "free")
         rep_path = os.path.normpath(os.path.join(cwd_rel, "cm_colors_report.html"))
         cards = []
